@@ -16,7 +16,7 @@ import (
 
 func init() {
 	PropertyText["C01"] = [2]string{
-		"Decides, on every path of the code each stage worker runs: the stage channels form one chain (R-WIRE); each stage forwards the received seed exactly once or stops (R-FWD); the finisher takes exactly one of produce/feedback/finish per seed and notifies the source only after CompleteAndCheck()==true and a nil MarkAsFinished (R-FIN); HasWork is false exactly on the terminal states (R-TERMINAL); markCompleted only completes parents whose children are all done, children first (R-MARK); every stage works on GetNodesAtLevel(GetMaxDepth()) of the same seed (R-LEVEL); item status is written only by its owners and each stage writes only the states it owns (R-STATUS-WRITERS). preprocess returns early only when the work list is empty or the element at hand is the seed itself, and closes the whole seed only on an empty list (R-PRE-EXITS). postprocessItem never returns with an item still Archived: every path settles its status or gives it a child (R-POST-PROGRESS).",
+		"Decides, on every path of the code each stage worker runs: the stage channels form one chain (R-WIRE); each stage forwards the received seed exactly once or stops (R-FWD); the finisher takes exactly one of produce/feedback/finish per seed and notifies the source only after CompleteAndCheck()==true and a nil MarkAsFinished (R-FIN); HasWork is false exactly on the terminal states (R-TERMINAL); markCompleted only completes parents whose children are all done, children first (R-MARK); every stage works on GetNodesAtLevel(GetMaxDepth()) of the same seed (R-LEVEL); item status is written only by its owners and each stage writes only the states it owns (R-STATUS-WRITERS). preprocess returns early only when the work list is empty or the element at hand is the seed itself, and closes the whole seed only on an empty list (R-PRE-EXITS). postprocessItem never returns with an item still Archived: every path settles its status or gives it a child (R-POST-PROGRESS). The fetch goroutine gives its concurrency slot back on every exit (R-SEM-RELEASE); the preprocessor keeps the depth it started with while it removes nodes (R-LEVEL).",
 		"Not decided: the product of goroutine interleavings beyond these per-path facts; memory visibility between stages (relies on channel happens-before, made structural by R-WIRE); reactor table quiescence at drain.",
 	}
 	register(&core.Rule{ID: "R-WIRE", Props: []string{"C01", "C05"}, Doc: "startPipeline hands the output channel of stage k to stage k+1 as input (same SSA value), all stage channels distinct, finisher→source channels shared with hq/lq Start; each stage's Start stores its parameters into the fields its worker receives from / sends to", Run: ruleWire})
